@@ -52,7 +52,7 @@ def main(tier, seed):
     lib.build_driver()
     lib.build_harness()
     lib.build_harness(release=True)
-    n = lib.ncases(100 if tier == "quick" else 3000)
+    n = lib.ncases(100 if tier == "quick" else 8000)
     rng = random.Random(seed * 7919 + 6)
     d = lib.casedir(PID)
     profiles = [None, None, {"slots": "some", "maxdist": "small"}, {"slots": "some", "maxdist": "mid", "ndeps": 6},
